@@ -74,10 +74,15 @@ def infer_redirection(url, recursive=True):
             # Basic relative url
             elif potential_target.startswith("/"):
                 # NOTE: urljoin drops the host of an url without protocol
-                if PROTOCOL_RE.match(url):
-                    target = urljoin(url, potential_target)
-                else:
-                    target = urljoin("http://" + url, potential_target)[7:]
+                try:
+                    if PROTOCOL_RE.match(url):
+                        target = urljoin(url, potential_target)
+                    else:
+                        target = urljoin("http://" + url, potential_target)[7:]
+
+                # NOTE: "//[::1" or an url with an unbalanced bracket cannot be joined
+                except ValueError:
+                    return url
 
                 # NOTE: a target joins to something shorter than the url it was
                 # found in, or it is not one: "//" (no host) joins to the url
